@@ -64,7 +64,7 @@ func (vc *VC) isLockCall(fn *ssa.Function) bool {
 	}
 	switch fn.Name() {
 	case "Lock", "Unlock", "RLock", "RUnlock", "TryLock", "TryRLock":
-		return pkg == "sync" || pkg == modulePath+"/pkg/locking"
+		return pkg == "sync" || pkg == modulePath+"/pkg/locking" || pkg == "github.com/sasha-s/go-deadlock"
 	}
 	return false
 }
@@ -372,11 +372,13 @@ func (vc *VC) callContractGeneric(st *State, resV ssa.Value, c *ssa.CallCommon, 
 	}
 	envPre := &Env{vc: vc, st: pre, old: pre, vars: vars, pkg: calleePkg}
 	for _, r := range spec.Requires {
-		t, err := envPre.compileBool(r.E)
+		parts, err := vc.splitClause(envPre, r)
 		if err != nil {
 			return fmt.Errorf("%s: requires#%d of %s: %v", vc.key, r.N, key, err)
 		}
-		vc.oblige(st, fmt.Sprintf("requires#%d@call(%s)#%d", r.N, key, ord), "requires", t, r.Text, nil)
+		for _, pt := range parts {
+			vc.oblige(st, fmt.Sprintf("requires#%d%s@call(%s)#%d", r.N, pt.suffix, key, ord), "requires", pt.term, pt.text, r.Props)
+		}
 	}
 	// frame of the callee
 	if !spec.Pure {
